@@ -33,7 +33,7 @@ Definition order_of (p : participant) : Z :=
 Fixpoint insert_by (p : participant) (l : list participant) : list participant :=
   match l with
   | [] => [p]
-  | q :: r => if order_of p <? order_of q then p :: q :: r else q :: insert_by p r
+  | q :: r => if order_of q <? order_of p then q :: insert_by p r else p :: q :: r   (* stable *)
   end.
 
 Fixpoint isort (l : list participant) : list participant :=
